@@ -7,7 +7,7 @@ ok=0; bad=0
 if [ -n "$(git -C /repo status --porcelain)" ]; then echo "/repo is not clean"; exit 2; fi
 for id in $ids; do
   prop=$(python3 -c "import json;print(json.load(open('seeded/$id/meta.json'))['property'])")
-  git -C /repo apply seeded/$id/patch.diff || { echo "$id: patch does not apply"; bad=$((bad+1)); continue; }
+  git -C /repo apply /verif/seeded/$id/patch.diff || { echo "$id: patch does not apply"; bad=$((bad+1)); continue; }
   out=$(VERIF_NO_EVIDENCE=1 ./check $prop --tier quick 2>&1); rc=$?
   git -C /repo checkout -- .
   # violations found against a seeded change must not stay in replays/
